@@ -563,8 +563,10 @@ def api_case(seed, nsteps=8):
         gs = g.init(rng=key, starting_eps=e, starting_step=k0)
         # A: run^n (jit-compiled run applied n times)
         a = gs
+        states = []
         for _ in range(n):
             a = jr(a)
+            states.append(a)
         # eager (un-jitted) run once vs jitted run once
         chk(f"[{tag}] eager run vs jit(run)", g.run(gs), jr(gs))
         # B: reset + step^n  ==  U(run^n)
@@ -578,6 +580,9 @@ def api_case(seed, nsteps=8):
         traj = g.rollout(gs, max_steps=n, carry_only=False)
         last = jax.tree_util.tree_map(lambda x: x[-1], traj)
         chk(f"[{tag}] last element of rollout trajectory vs run^n", last, a)
+        # every element of the trajectory is the state after k + 1 runs (Props/C09 rolloutTraj_eq_map)
+        for k_ in range(1, n - 1):
+            chk(f"[{tag}] element {k_} of the rollout trajectory vs run^{k_ + 1}", jax.tree_util.tree_map(lambda x: x[k_], traj), states[k_])
         if n >= 2:
             mid = jax.tree_util.tree_map(lambda x: x[0], traj)
             chk(f"[{tag}] first element of rollout trajectory vs run^1", mid, jr(gs))
